@@ -83,7 +83,7 @@ func (fx *FnExec) tryInline(st *State, callee *ssa.Function, args []Term, at tok
 		inlineDepth: fx.inlineDepth + 1, inlineParent: fx, inlineAt: at, entry: fx.entry, recDefs: fx.recDefs, inlined: fx.inlined}
 	// snapshot for rollback: script position, state, counters are shared maps (ordinals only grow: harmless)
 	pos := fx.sc.Pos()
-	savedDefers := st.defers
+	savedDefers, savedGuards := st.defers, st.dguard
 	nobl := len(fx.obls)
 	failed := false
 	func() {
@@ -113,7 +113,7 @@ func (fx *FnExec) tryInline(st *State, callee *ssa.Function, args []Term, at tok
 		// the callee runs on a copy: state objects become parents of merged epochs, and the caller's own
 		// state object is overwritten with the result below
 		work := st.Clone()
-		work.defers = nil
+		work.defers, work.dguard = nil, nil
 		sub.runBlocks(work)
 	}()
 	fx.nepoch = sub.nepoch
@@ -144,7 +144,7 @@ func (fx *FnExec) tryInline(st *State, callee *ssa.Function, args []Term, at tok
 		}
 		results[r] = fx.sc.Define("inl$"+sanitize(callee.Name()), acc)
 	}
-	exit.defers = savedDefers
+	exit.defers, exit.dguard = savedDefers, savedGuards
 	*st = *exit
 	fx.obls = append(fx.obls, sub.obls...)
 	fx.inlined[funcKey(callee)]++
